@@ -147,11 +147,23 @@ theorem acyclicB_rank (d : Doc) (h : acyclicB d = true) :
   refine ⟨fun v => (rankOf (kahnRanks d) v).getD 0, fun e he => ?_⟩
   have hcons : e.2 ∈ ids d := by
     unfold edges at he
-    rw [List.mem_flatMap] at he
-    obtain ⟨c, hc, hm⟩ := he
-    rw [List.mem_map] at hm
-    obtain ⟨r, _, rfl⟩ := hm
-    exact List.mem_map_of_mem hc
+    rcases List.mem_append.mp he with he | he
+    · unfold compEdges at he
+      rw [List.mem_flatMap] at he
+      obtain ⟨c, hc, hm⟩ := he
+      rw [List.mem_map] at hm
+      obtain ⟨r, _, rfl⟩ := hm
+      exact List.mem_map_of_mem hc
+    · unfold placeholderEdges at he
+      rw [List.mem_flatMap] at he
+      obtain ⟨c, hc, hm⟩ := he
+      rw [List.mem_filterMap] at hm
+      obtain ⟨r, _, hr⟩ := hm
+      split at hr
+      · cases hr
+      · cases hp : placeholderInst d r with
+        | none => rw [hp] at hr; cases hr
+        | some s => rw [hp] at hr; cases hr; exact List.mem_map_of_mem hc
   unfold acyclicB at h
   rw [List.all_eq_true] at h
   have hr := h _ hcons
@@ -380,16 +392,19 @@ theorem expansion_projects (d : Doc) (hn : (ids (expandDoc d)).Nodup) (hok : ∀
     (href : refsAreComponents d) :
     (∀ c' ∈ (expandDoc d).comps, ∀ x ∈ c'.refs, x ∈ ids (expandDoc d)) ∧
     (∀ e ∈ edges (expandDoc d), (bpOf (bpList d) e.1, bpOf (bpList d) e.2) ∈ edges d) := by
-  constructor
-  · intro c' hc' x hx
+  have hfirst : ∀ c' ∈ (expandDoc d).comps, ∀ x ∈ c'.refs, x ∈ ids (expandDoc d) := by
+    intro c' hc' x hx
     unfold expandDoc at hc'
     simp only [List.mem_flatMap] at hc'
     obtain ⟨c, hc, hc'⟩ := hc'
     obtain ⟨r, _, hm⟩ := ref_projects hc hc' (hok c hc) (href c hc) hx
     rw [ids_expandDoc]
     exact List.mem_map.mpr ⟨(x, r), hm, rfl⟩
-  · intro e he
-    unfold edges at he
+  refine ⟨hfirst, ?_⟩
+  intro e he
+  unfold edges at he
+  rcases List.mem_append.mp he with he | he
+  · unfold compEdges at he
     rw [List.mem_flatMap] at he
     obtain ⟨c', hc', hm⟩ := he
     rw [List.mem_map] at hm
@@ -402,11 +417,21 @@ theorem expansion_projects (d : Doc) (hn : (ids (expandDoc d)).Nodup) (hok : ∀
     obtain ⟨r, hr, hm⟩ := ref_projects hc hcc (hok c hc) (href c hc) hx'
     show (bpOf (bpList d) x, bpOf (bpList d) c'.id) ∈ edges d
     rw [bpOf_of_mem hn hm, bpOf_of_mem hn (mem_bpList hc hcc)]
-    unfold edges
+    unfold edges compEdges
+    refine List.mem_append_left _ ?_
     rw [List.mem_flatMap]
     refine ⟨c, hc, List.mem_map.mpr ⟨r, ?_, rfl⟩⟩
     rw [List.mem_filter]
     exact ⟨hr, by simpa using href c hc r hr⟩
+  · -- no reference of the expanded document goes through a placeholder: every one is a component
+    unfold placeholderEdges at he
+    rw [List.mem_flatMap] at he
+    obtain ⟨c', hc', hm⟩ := he
+    rw [List.mem_filterMap] at hm
+    obtain ⟨x, hx, hr⟩ := hm
+    have : (ids (expandDoc d)).contains x = true := by simpa using hfirst c' hc' x hx
+    rw [if_pos this] at hr
+    cases hr
 
 private theorem reach_projects {d : Doc} (h : ∀ e ∈ edges (expandDoc d),
     (bpOf (bpList d) e.1, bpOf (bpList d) e.2) ∈ edges d) {a b : Id} (hr : Reach (edges (expandDoc d)) a b) :
@@ -717,7 +742,8 @@ private def good : Doc :=
     globals := [("g".toList, [])] }
 
 example : validate Gen.C11.convTable Gen.C11.componentSchema good = [] := by decide +kernel
-example : (edges good).length = 5 ∧ placeholders good = [(1, "it".toList)] := by decide
+example : (compEdges good).length = 5 ∧ placeholders good = [(1, "it".toList)] ∧
+    placeholderEdges good = [((1, "0#it".toList), (1, "join".toList))] := by decide
 
 private def withComps (cs : List Comp) : Doc := { good with comps := cs }
 
@@ -892,6 +918,12 @@ example : (validateP Gen.C11.convTable Gen.C11.componentSchema (loopPkg (2, "rep
 example : (inst ((loopPkg (0, "fak".toList)).loops.head!) 1).all
     (fun c => c.refs.all (refResolves (unrolled (loopPkg (0, "fak".toList)) (loopPkg (0, "fak".toList)).loops.head! 1)))
     = false := by decide +kernel
+/-- the single fault "`dummy`, the source of the input binding, consumes the looped `add`": a cycle through the
+placeholder `stage1.add`, reported by the cycle check -/
+example : validateP Gen.C11.convTable Gen.C11.componentSchema
+    { goodLoop with main := { goodLoop.main with comps :=
+        [c 0 "dummy" [(1, "add".toList)] [] [], c 3 "report" [(1, "add".toList), (2, "stop".toList)] [] []] } }
+    = [.doc .cycle] := by decide +kernel
 /-- a dangling condition, a dangling reference of a looped component -/
 example : danglingCondition { goodLoop with loops := goodLoop.loops.map (fun l => { l with cond := (0, "stop".toList) }) } :=
   ⟨_, .head _, by decide +kernel⟩
